@@ -227,6 +227,21 @@ pub(crate) mod verif_q {
         q
     }
 
+    /// like `build`, but the newest user frame is one behind the newest stored frame (a delay decrease
+    /// that has not drained yet): the next sequential submission is dropped
+    pub(crate) fn build_lagging<T: Config<Input = u8>>(la: Frame, tail: Frame, vals: &[u8; N]) -> InputQueue<T> {
+        let mut q = build::<T>(la, tail, NULL_FRAME, vals, None, NULL_FRAME);
+        q.last_user_frame = la - 1;
+        q
+    }
+    /// like `build`, in steady state at frame delay d (newest user frame = la - d)
+    pub(crate) fn build_delayed<T: Config<Input = u8>>(la: Frame, tail: Frame, d: usize, vals: &[u8; N]) -> InputQueue<T> {
+        let mut q = build::<T>(la, tail, NULL_FRAME, vals, None, NULL_FRAME);
+        q.frame_delay = d;
+        q.last_user_frame = la - d as Frame;
+        q
+    }
+
     /// any queue state satisfying the representation invariant, with its ghost prediction base
     pub(crate) fn any_valid<T: Config<Input = u8>>() -> (InputQueue<T>, Frame) {
         let (q, g) = any_queue::<T>();
@@ -527,4 +542,57 @@ pub(crate) mod verif_q {
         core::mem::forget(fills);
         core::mem::forget(q);
     }
+
+    fn delay_twice(d0: usize, d1: usize, d2: usize) {
+        let (mut q, g) = any_queue::<CfgRL>();
+        kani::assume(inv(&q, &g));
+        let la = q.last_added_frame;
+        let lu = q.last_user_frame;
+        kani::assume(q.frame_delay == d0);
+        kani::assume(la != NULL_FRAME && la == lu + d0 as Frame); // steady state
+        kani::assume(q.prediction.frame == NULL_FRAME);
+        let newest = value_of(&q, la);
+        let fills1 = q.set_frame_delay(d1);
+        let fills2 = q.set_frame_delay(d2);
+        kani::assume(q.length + 5 <= N);
+        kani::assume(lu + 6 < MAX_FRAME);
+        let v: u8 = kani::any();
+        let r = q.add_input(PlayerInput::new(lu + 1, v));
+        // the frames the owner's queue filled in: la+1 ..= r-1 (none if the submission was dropped)
+        let filled: usize = if r == NULL_FRAME { 0 } else { (r - la - 1) as usize };
+        // what was announced to the peers, in order
+        let announced = fills1.len() + fills2.len();
+        assert!(announced == filled, "C11: announced fill frames == frames the owner fills");
+        let mut i = 0;
+        while i < announced {
+            let ff = if i < fills1.len() { fills1[i] } else { fills2[i - fills1.len()] };
+            assert!(ff.frame == la + 1 + i as Frame, "C11: announced fills are gapless and each frame once");
+            assert!(ff.input == newest);
+            i += 1;
+        }
+        assert!(inv(&q, &g));
+        kani::cover!(true, "reached");
+        core::mem::forget(fills1);
+        core::mem::forget(fills2);
+        core::mem::forget(q);
+    }
+
+    macro_rules! delay_twice_case {
+        ($name:ident, $d0:expr, $d1:expr, $d2:expr) => {
+            /// C11 kernel, two set_frame_delay calls before the next submission, from ANY steady queue
+            /// state at delay d0: the fills announced by the two calls together must be exactly the
+            /// frames the queue itself fills when the next input arrives, each once, in order, with the
+            /// repeated last input. (instance: d0 -> d1 -> d2)
+            #[kani::proof]
+            #[kani::unwind(10)]
+            fn $name() {
+                delay_twice($d0, $d1, $d2);
+            }
+        };
+    }
+    delay_twice_case!(q_delay_twice_1_2_2_control, 1, 2, 2);
+    delay_twice_case!(q_delay_twice_2_0_0_control, 2, 0, 0);
+    delay_twice_case!(q_delay_twice_1_2_3, 1, 2, 3);
+    delay_twice_case!(q_delay_twice_2_0_3, 2, 0, 3);
+    delay_twice_case!(q_delay_twice_1_3_1, 1, 3, 1);
 }
